@@ -556,7 +556,7 @@ class Engine:
                 o.info['args'] = it.spec_args
                 o.info['pre'] = it.pre_heap
                 obls.append(o)
-            paths.append({'id': pid, 'outcome': outcome[0], 'detail': str(outcome[1])[:200] if len(outcome) > 1 else '',
+            paths.append({'labels': list(getattr(run, 'labels', [])), 'id': pid, 'outcome': outcome[0], 'detail': str(outcome[1])[:200] if len(outcome) > 1 else '',
                           'n_obls': len(run.obls), 'events': [(e[0], e[2].get('lineno')) for e in run.events]})
         return {'contract': c, 'fi': fi, 'obls': obls, 'paths': paths, 'gen_s': time.time() - t0, 'feas_checks': feas_checks}
 
@@ -683,6 +683,8 @@ class Engine:
         allowed = {}
         for field, refs in mods:
             allowed.setdefault(field, []).append(refs)
+        if '$litem' in allowed:
+            allowed.setdefault('$lpos', []).extend(allowed['$litem'])      # ghost bookkeeping goes with the items
         for field, arr in run.heap.a.items():
             pre = it.pre_heap.a.get(field)
             if pre is None:
